@@ -224,7 +224,11 @@ def build(desc) -> tuple[bytes, int, list]:
     nl = desc.get("nl", "\r\n").encode()
     out = b""
     for code in desc.get("interim", []):
-        out += b"HTTP/1.1 %d Continue" % code + nl + b"X-I: 1" + nl + nl
+        out += b"HTTP/1.1 %d Continue" % code + nl
+        # header lines of an interim response - framing headers included - belong to that response only
+        for line in desc.get("interim_headers", ["X-I: 1"]):
+            out += line.encode() + nl
+        out += nl
     out += desc.get("version", "HTTP/1.1").encode() + b" %d" % desc["code"]
     if desc.get("phrase") is not None:
         out += b" " + desc["phrase"].encode()
@@ -254,12 +258,14 @@ def build(desc) -> tuple[bytes, int, list]:
         complete_at = len(out)
     elif fr == "chunked":
         pos = 0
-        for n in desc["chunks"]:
+        fmt = desc.get("chunkfmt")          # per chunk: [leading zeros, extension]
+        for ci, n in enumerate(desc["chunks"]):
             piece = body[pos:pos + n]
             pos += n
             if not piece:
                 continue
-            out += b"%x" % len(piece) + desc.get("ext", "").encode() + b"\r\n"
+            zeros, ext = fmt[ci] if fmt else (0, desc.get("ext", ""))
+            out += b"0" * zeros + b"%x" % len(piece) + ext.encode() + b"\r\n"
             bmap.append((len(out), piece))
             out += piece + b"\r\n"
         out += b"0" + desc.get("ext", "").encode() + b"\r\n"
@@ -424,6 +430,9 @@ def _descs(rng, tier):
                      "headers": rng.sample([["X-A", " 1"], ["Content-Type", "text/plain"], ["X-Long", " a\r\n  folded"],
                                             ["Connection", " close"], ["X-E", ""]], rng.choice([0, 1, 2])),
                      "interim": rng.choice([[], [], [100], [100, 102]]),
+                     "interim_headers": rng.choice([["X-I: 1"], ["X-I: 1"], [], ["Content-Length: 0"],
+                                                    ["Transfer-Encoding: chunked"], ["Connection: close"],
+                                                    ["Content-Length: 7", "X-I: 2"]]),
                      "nl": rng.choice(["\r\n", "\r\n", "\n"]),
                      "version": rng.choice(["HTTP/1.1", "HTTP/1.1", "HTTP/1.0", "FOO/2.10"])}
                 if fr == "chunked":
@@ -441,6 +450,71 @@ def _descs(rng, tier):
                     d["extra"] = b"HTTP/1.1 200 OK\r\n".hex() if fr != "close" else ""
                 ds.append(d)
     return ds
+
+
+def _case(rng, desc, t, segs, timing=None, lose=True):
+    return {"desc": desc, "t": t, "method": desc["method"].encode().hex(), "segs": [x.hex() for x in segs],
+            "k": rng.randrange(len(segs) + 1), "timing": timing or rng.choice(TIMINGS), "lose": lose,
+            "persistent": rng.random() < 0.5}
+
+
+def _interim_framing_block(rng, tier):
+    """an interim (1xx) response that itself carries a connection-control header, before a final response of every
+    framing kind: the interim response's headers must not take part in the framing of the final one"""
+    out = []
+    body = b"hello".hex()
+    for icode in (100, 102):
+        for ih in (["Content-Length: 0"], ["Content-Length: 9"], ["Transfer-Encoding: chunked"], ["Connection: close"],
+                   ["Content-Length: 0", "Transfer-Encoding: chunked"], ["Trailers: x", "Keep-Alive: 1"]):
+            for fr, code, method in (("cl", 200, "GET"), ("chunked", 200, "GET"), ("close", 200, "GET"),
+                                     ("cl-dup", 404, "GET"), ("cl", 204, "GET"), ("cl", 200, "HEAD")):
+                d = {"method": method, "code": code, "framing": fr, "body": body, "phrase": "OK", "headers": [],
+                     "interim": [icode], "interim_headers": ih, "nl": "\r\n", "version": "HTTP/1.1"}
+                if fr == "chunked":
+                    d["chunks"] = [2, 3]
+                wire = build(d)[0]
+                for timing in (("at-response", "after-lost") if tier == "quick" else TIMINGS):
+                    out.append(_case(rng, d, len(wire), _segment(rng, wire), timing))
+                if tier != "quick":
+                    for t in range(len(wire) + 1):
+                        out.append(_case(rng, d, t, _segment(rng, wire[:t])))
+    return out
+
+
+def _chunk_size_line_block(rng, tier):
+    """chunk-size lines of three and more bytes (big chunk, leading zeros, extension) followed by shorter ones, with a
+    delivery boundary at EVERY offset (all two-way splits), and at every offset inside every chunk-size line combined
+    with a second cut"""
+    out = []
+    shapes = [
+        ([256, 5], [[0, ""], [0, ""]]),                 # "100" then "5"
+        ([5, 3, 1], [[3, ""], [0, ";ext=1"], [0, ""]]),  # "0005", "3;ext=1", "1"
+        ([300, 17, 2], [[0, ""], [1, ""], [0, ""]]),      # "12c", "011", "2"
+        ([4, 4], [[0, ";a=b;c"], [2, ""]]),              # "4;a=b;c", "004"
+    ]
+    for sizes, fmt in (shapes if tier != "quick" else shapes[:3]):
+        n = sum(sizes)
+        d = {"method": "GET", "code": 200, "framing": "chunked", "body": bytes(rng.choice(b"abcdefgh") for _ in range(n)).hex(),
+             "phrase": "OK", "headers": [], "interim": [], "nl": "\r\n", "version": "HTTP/1.1", "chunks": sizes,
+             "chunkfmt": fmt, "trailers": rng.choice([[], ["X-T: 1"]]), "te": "chunked"}
+        wire, headlen, bmap, complete_at = build(d)
+        # offsets of the chunk-size lines (start of line .. its LF)
+        lines = []
+        pos = headlen
+        for off, piece in bmap:
+            lines.append((pos, off))          # size line occupies wire[pos:off]
+            pos = off + len(piece) + 2
+        for c in range(1, len(wire)):
+            if tier == "quick" and c < headlen - 2 and rng.random() < 0.8:
+                continue                      # the head is covered elsewhere; keep a sample
+            out.append(_case(rng, d, len(wire), [wire[:c], wire[c:]], rng.choice(["at-response", "after-lost", "after"])))
+        for a, b in lines:
+            for c in range(a + 1, b + 1):
+                for _ in range(1 if tier == "quick" else 3):
+                    c2 = rng.randrange(c + 1, len(wire)) if c + 1 < len(wire) else None
+                    segs = [wire[:c], wire[c:c2], wire[c2:]] if c2 else [wire[:c], wire[c:]]
+                    out.append(_case(rng, d, len(wire), [x for x in segs if x], "at-response"))
+    return out
 
 
 MALFORMED = [
@@ -507,6 +581,8 @@ def gen(rng, tier):
                 cases.append({"desc": desc, "t": t, "method": desc["method"].encode().hex(),
                               "segs": [s.hex() for s in segs], "k": rng.randrange(len(segs) + 1),
                               "timing": timing, "lose": rng.random() < 0.8, "persistent": rng.random() < 0.5})
+    cases += _interim_framing_block(rng, tier)
+    cases += _chunk_size_line_block(rng, tier)
     # boundaries of every response, all timings, lost and open
     for desc in _descs(rng, tier):
         wire, headlen, bmap, complete_at = build(desc)
